@@ -213,6 +213,20 @@ def gen_plan(seed, tier):
       if 8 <= pad <= 9000:
         msgs[i] = W.enc_echo_request(0x100 + i, r.randbytes(pad - 8))
         break
+  # length fields with the high byte / top bit set: 16-bit boundary sizes
+  huge = r.chance(0.08)
+  if huge:
+    T = r.pick([32767, 32768, 32769, 40000, 65528, 65535])
+    i = r.randrange(len(msgs))
+    if side == "sw" and r.chance(0.5):
+      data = F.eth(F.mac(1), F.mac(2), 0x88b5, r.randbytes(T - 24 - 14))
+      msgs[i] = W.enc_packet_out(0x100 + i, W.NO_BUFFER, W.OFPP_NONE,
+                                 [("output", 1, 0)], data)
+    elif side == "ctl" and r.chance(0.5):
+      data = F.eth(F.mac(1), F.mac(2), 0x88b5, r.randbytes(T - 18 - 14))
+      msgs[i] = W.enc_packet_in(0x100 + i, W.NO_BUFFER, len(data), 1, 0, data)
+    else:
+      msgs[i] = W.enc_echo_request(0x100 + i, r.randbytes(T - 8))
   cuts = _cuts(r, msgs)
   delays = []
   for _ in range(len(cuts) + 1):
@@ -221,6 +235,8 @@ def gen_plan(seed, tier):
   cfg = {"side": side, "recv_mode": r.pick(["all", "all", "choose",
                                              "dribble"]),
          "shuffle_ready": r.chance(0.3)}
+  if huge and cfg["recv_mode"] == "dribble":
+    cfg["recv_mode"] = "choose"     # 64 KiB one byte per cycle: too slow
   # steps: one per message (so the minimiser can drop messages); cuts are
   # kept as fractions of the stream so they survive deletions
   total = sum(len(m) for m in msgs)
